@@ -148,8 +148,12 @@ def run(chk, tier, seed):
         rnd.shuffle(pool)
         layouts = [("DFS", None, 12), ("OPUS", None, 12), ("WDFS", 1, 9), ("WDFS", 3, 12), ("WDFS", 8, 16), ("WDFS", 31, 40), ("WDFS", 30, 40), ("WDFS", 0, 6)]
         find_events = []
+        # names that are prefixes of one another, the shorter one earlier and later in the catalogue, within and across fragments
+        pre_a = [(0, 36, [65]), (0, 36, [65, 49]), (0, 65, [49]), (0, 65, [49, 65]), (0, 36, [49, 65]), (0, 36, [49])]
+        layouts += [("DFS", None, -1), ("DFS", None, -2), ("WDFS", 1, -1), ("WDFS", 3, -2), ("OPUS", None, -1)]
         for li, (variant, split, nfiles) in enumerate(layouts):
-            fl = pool[li * 3: li * 3 + nfiles]
+            fl = pool[li * 3: li * 3 + nfiles] if nfiles > 0 else (pre_a if nfiles == -1 else list(reversed(pre_a)))
+            nfiles = len(fl)
             absent = [f for f in pool if f not in fl][:6]
             ents = [mkdisc.entry(bytes(f[2]), f[1], False, 0, 0, 20 + k, 100 + 2 * (nfiles - k)) for k, f in enumerate(fl)]
             kw = dict(nsectors=400, salt=60 + li, title=b"FIND") if variant != "OPUS" else dict(salt=60 + li, title=b"FIND")
@@ -173,7 +177,11 @@ def run(chk, tier, seed):
                 arg = (pre + "%c." % qdir + qname.decode("latin1"))
                 for cmd in (["type", "--binary"], ["dump"]):
                     o = common.run([dfs, "--file", d.path, "--drive", d.drive] + cmd + [arg], timeout=30)
-                    if o.rc == 0 and (cmd[0] != "type" or any(o.out == b for b in bodies.values())):
+                    # the file the requirement selects for this query (same name up to case, same directory up to case)
+                    want = [b for (dd, nn), b in bodies.items() if nn.upper() == qname.upper() and chr(dd).upper() == chr(qdir).upper()]
+                    if o.rc == 0 and cmd[0] == "type" and want and not any(o.out == b for b in want):
+                        found = 3                  # succeeded, but with the content of another file
+                    elif o.rc == 0 and (cmd[0] != "type" or any(o.out == b for b in bodies.values())):
                         found = 1
                     elif o.rc != 0 and b"not found" in o.err and o.ok_alphabet():
                         found = 0
@@ -204,9 +212,9 @@ def run(chk, tier, seed):
                     for fi, fr in enumerate(e["cat"]):
                         if any(bytes(x["name"]).upper() == bytes(e["qname"]).upper() and chr(x["dir"]).upper() == chr(e["qdir"]).upper() for x in fr):
                             where = "frag%d" % (fi + 1)
-                    chk.violation("find:%s:%s:%s" % (e["variant"], where, {0: "not-found", 1: "found", 2: "other"}[e["found"]]),
+                    chk.violation("find:%s:%s:%s" % (e["variant"], where, {0: "not-found", 1: "found", 2: "other", 3: "wrong-file"}[e["found"]]),
                                   "%s %s on a %s disc (first fragment holds %s entries): %s although the entry is in %s; stderr %r"
-                                  % (e["cmd"], e["arg"], e["variant"], e["split"], {0: "reported not found", 1: "found", 2: "neither found nor 'not found'"}[e["found"]],
+                                  % (e["cmd"], e["arg"], e["variant"], e["split"], {0: "reported not found", 1: "found", 2: "neither found nor 'not found'", 3: "delivered another file's content"}[e["found"]],
                                      where, e["err"]), dict(event=e))
                     continue
                 pat = bytes(e["pat"]).decode("latin1")
